@@ -597,7 +597,9 @@ func buildInventory(c *Ctx, rels []string, runs []*runInfo) []*blockSite {
 								exitArm = true
 							case m == "ShuttingDown" && isLifecycleType(rv.Type()):
 								stopArm = true
-							case m == "Done" || m == "done":
+							case (m == "Done" || m == "done") && !isContextType(rv.Type()):
+								// Done() of an actor or lifecycle; a context's Done() is not a stop signal of
+								// the actor (Close() does not cancel the caller's context)
 								exitArm, stopArm = true, true
 							case m == "Events":
 								exitArm = true // closed parent channel ends the loop (table rules check the !ok exit)
@@ -674,6 +676,11 @@ func buildInventory(c *Ctx, rels []string, runs []*runInfo) []*blockSite {
 		}
 	}
 	return sites
+}
+
+func isContextType(t types.Type) bool {
+	n, ok := t.(*types.Named)
+	return ok && n.Obj().Pkg() != nil && n.Obj().Pkg().Path() == "context" && n.Obj().Name() == "Context"
 }
 
 // isDoneChanType: chan struct{} in any direction (a pure completion signal).
